@@ -32,19 +32,59 @@ def xsd_for(case):
         cm.render_particle = _orig_render
 
 
+def cross_xsd(case, base_location):
+    """a complex type of urn:t extending a base type of the imported namespace urn:o: the two wildcards of the effective
+    content model are declared in schema documents with different target namespaces"""
+    w1, w2 = [lf for lf in cm.leaves(case['model']) if lf['t'] == 'w']
+    base = ('<xs:schema xmlns:xs="http://www.w3.org/2001/XMLSchema" targetNamespace="%s" xmlns:o="%s" elementFormDefault="qualified">'
+            '<xs:element name="x" type="xs:string"/><xs:complexType name="B"><xs:sequence><xs:element ref="o:x"/>'
+            '<xs:any namespace="%s" processContents="lax"%s/></xs:sequence></xs:complexType></xs:schema>'
+            % (cm.ONS, cm.ONS, w1['ns'], cm.occ_attrs(w1)))
+    main = ('<xs:schema xmlns:xs="http://www.w3.org/2001/XMLSchema" targetNamespace="%s" xmlns:t="%s" xmlns:o="%s" '
+            'elementFormDefault="qualified"><xs:import namespace="%s" schemaLocation="%s"/>'
+            '<xs:complexType name="D"><xs:complexContent><xs:extension base="o:B"><xs:sequence>'
+            '<xs:any namespace="%s" processContents="lax"%s/></xs:sequence></xs:extension></xs:complexContent></xs:complexType>'
+            '<xs:element name="r" type="t:D"/></xs:schema>' % (cm.TNS, cm.TNS, cm.ONS, cm.ONS, base_location, w2['ns'], cm.occ_attrs(w2)))
+    return base, main
+
+
 def subject(case):
+    import os
     import xmlschema
     cls = xmlschema.XMLSchema11 if case['version'] == '1.1' else xmlschema.XMLSchema10
+    tmp = None
     try:
-        cls(xsd_for(case))
+        if case.get('cross'):
+            d = common.BUILD / 'tmp'
+            d.mkdir(parents=True, exist_ok=True)
+            tmp = d / ('c15_%d_%d.xsd' % (os.getpid(), abs(hash(json.dumps(case, sort_keys=True))) % 10 ** 9))
+            base, main = cross_xsd(case, 'file://' + str(tmp))
+            tmp.write_text(base)
+            cls(main)
+        else:
+            cls(xsd_for(case))
         return {'build': 'ok'}
     except Exception as e:  # noqa
         return {'build': common.exc_class(e), 'msg': str(e)[:160]}
+    finally:
+        if tmp is not None and tmp.exists():
+            tmp.unlink()
 
 
-def make_case(model, version):
+def make_case(model, version, cross=False):
     model = cm.assign_pids(json.loads(json.dumps(model)))
-    return {'model': model, 'version': version, 'sigma': cm.alphabet(model, ('d',))}
+    c = {'model': model, 'version': version, 'sigma': cm.alphabet(model, ('d',))}
+    if cross:
+        c['cross'] = True
+    return c
+
+
+def cross_model(ns1, occ1, ns2, occ2):
+    """effective content of the extension: sequence(sequence(o:x, any ns1 [declared in urn:o]), sequence(any ns2 [urn:t]))"""
+    w1 = cm.W(ns1, occ1)
+    w1['tns'] = cm.ONS
+    w2 = cm.W(ns2, occ2)
+    return cm.G('seq', [cm.G('seq', [cm.E('x', (1, 1)), w1], (1, 1)), cm.G('seq', [w2], (1, 1))], (1, 1))
 
 
 def edc_pairs(model):
@@ -97,6 +137,8 @@ def evaluate(ctx, cases):
             ctx.dist('xsd11', 'element-vs-wildcard competition excused')
         ctx.dist('closure_states', 10 * (size // 10) if size is not None else 'n/a')
         ctx.count(('m', json.dumps(c, sort_keys=True)), nontrivial=cm.size(c['model']) >= 3)
+        if c.get('cross'):
+            ctx.dist('family', 'wildcards of two target namespaces')
         ctx.sample({'model': desc(c), 'reference_deterministic': want_ok, 'implementation': o['build'],
                     'closure_states': size})
         if o['build'] not in ('ok', 'model'):
@@ -159,6 +201,14 @@ def gen_cases(ctx):
     for i in range(250 if ctx.quick() else 4000):
         v = '1.1' if i % 2 else '1.0'
         cases.append(make_case(cm.random_model(rng, version=v, max_leaves=5), v))
+    # wildcards declared in schema documents with different target namespaces (extension of an imported base type)
+    forms = ['##any', '##other', '##local', '##targetNamespace', cm.TNS, cm.ONS, cm.PNS, '%s %s' % (cm.ONS, cm.PNS), '##local %s' % cm.TNS]
+    cross = [(a, o1, b, o2) for a in forms for b in forms for o1 in [(0, 1), (0, None), (1, 1)] for o2 in [(1, 1), (0, 1), (0, None)]]
+    if ctx.quick():
+        cross = rng.sample(cross, 150)
+    for a, o1, b, o2 in cross:
+        for v in (['1.0', '1.1'] if not ctx.quick() else [rng.choice(['1.0', '1.1'])]):
+            cases.append(make_case(cross_model(a, o1, b, o2), v, cross=True))
     # EDC: same local name with equal / different types
     for i in range(60 if ctx.quick() else 600):
         v = '1.1' if i % 2 else '1.0'
@@ -187,4 +237,4 @@ def run(ctx):
 
 def replay(ctx, case):
     c = case['case']
-    evaluate(ctx, [make_case(c['model'], c['version'])])
+    evaluate(ctx, [make_case(c['model'], c['version'], cross=c.get('cross', False))])
